@@ -1008,6 +1008,9 @@ func runHdr(c *Ctx) {
 			if callee != nil && isPow2Func(callee) && len(call.Call.Args) == 1 {
 				return "pow2(" + t.Term(call.Call.Args[0], ps) + ")", true
 			}
+			if callee != nil && len(call.Call.Args) == 1 && (isLibFunc(callee, "math/bits", "OnesCount") || isLibFunc(callee, "math/bits", "OnesCount64") || isLibFunc(callee, "math/bits", "OnesCount32") || isLibFunc(callee, "math/bits", "OnesCount16")) {
+				return "ones(" + t.Term(call.Call.Args[0], ps) + ")", true
+			}
 		}
 		return "", false
 	}
@@ -1024,6 +1027,10 @@ func runHdr(c *Ctx) {
 		if strings.HasPrefix(s, "pow2(") && strings.HasSuffix(s, ")") {
 			s = s[5 : len(s)-1]
 			kind = "pow2"
+		}
+		if strings.HasPrefix(s, "ones(") && strings.HasSuffix(s, ")") {
+			s = s[5 : len(s)-1]
+			kind = "ones"
 		}
 		if !strings.HasPrefix(s, base+".") {
 			return fieldLayout{}, "", false
@@ -1166,6 +1173,13 @@ func runHdr(c *Ctx) {
 						return false, false
 					}
 					if evalCmp(int64(v), l.Op, l.N) != l.Val {
+						return false, true
+					}
+				case "ones":
+					if !l.IsInt {
+						return false, false
+					}
+					if evalCmp(int64(bits.OnesCount64(v)), l.Op, l.N) != l.Val {
 						return false, true
 					}
 				case "pow2":
